@@ -189,6 +189,13 @@ def compile_paths(src, d, k):
     yield "file", fn, lambda: Template(filename=fn)
     yield "lookup", fn, lambda: TemplateLookup(directories=[d]).get_template("t%d.html" % k)
     yield "module_directory", fn, lambda: Template(filename=fn, module_directory=moddir)
+    # compiled as a side effect of rendering another template that includes / inherits / imports it
+    for how, outer in (("include", 'o1\no2\n<%%include file="t%d.html"/>\n'), ("inherit", '<%%inherit file="t%d.html"/>\nbody\n'),
+                       ("namespace", 'o1\n<%%namespace name="n" file="t%d.html"/>\n${n.body()}\n')):
+        ofn = os.path.join(d, "outer_%s_%d.html" % (how, k))
+        with open(ofn, "w") as fh:
+            fh.write(outer % k)
+        yield "via-" + how, fn, (lambda ofn=ofn: TemplateLookup(directories=[d]).get_template(os.path.basename(ofn)).render())
 
 
 def check_case(case, ev=None, tmp=None):
@@ -209,12 +216,12 @@ def check_case(case, ev=None, tmp=None):
                 kind = type(e).__name__
                 rt = mexc.RichTraceback(error=e)
                 txt = htm = None
-                if pname in ("string", "file"):
+                if pname in ("string", "file", "via-include"):
                     try:
                         txt = mexc.text_error_template().render(error=e, traceback=e.__traceback__)
                     except Exception as e2:
                         txt = "ERROR-TEMPLATE-FAILED %r" % e2
-                if pname == "lookup" and case.get("html", True):
+                if pname in ("lookup", "via-include", "via-inherit") and case.get("html", True):
                     try:
                         htm = mexc.html_error_template().render_unicode(error=e, traceback=e.__traceback__)
                     except Exception as e2:
